@@ -17,7 +17,7 @@ def _mk(name, variants, tags=(), files=None, depth=2, js=(1, 3), fresh_depth=1, 
 
 def templates(tier="quick"):
     T = []
-    d = 2 if tier == "quick" else 3
+    d = 3 if tier == "quick" else 4
 
     # T1 chain of three plain statements
     v = Variant("v0", [Stmt("a", ex=["s"]), Stmt("b", ex=["a"]), Stmt("c", ex=["b"])])
@@ -134,5 +134,27 @@ def templates(tier="quick"):
     v = Variant("v0", [Stmt("r", ex=["s"], restat=True), Stmt("al", ex=["r"], phony=True),
                        Stmt("o", ex=["t"], oo=["al"]), Stmt("p", ex=["al", "o"])])
     T += _mk("restat_phony_oo", [v], tags=["restat", "phony", "order-only"], depth=d, touch=True)
+
+
+    # T19 four independent statements, more than -j allows: failures in flight beyond the -k budget
+    v = Variant("v0", [Stmt("i1", ex=["s"]), Stmt("i2", ex=["s"]), Stmt("i3", ex=["t"]), Stmt("i4", ex=["t"]),
+                       Stmt("link", ex=["i1", "i2", "i3", "i4"])])
+    ops = standard_ops([v], {}, js=(2, 3), with_rm=False, with_faults=False)
+    for fl in (("i1", "i2"), ("i1", "i3"), ("i2", "i4"), ("i1", "i2", "i3")):
+        for k in (1, 2, 0):
+            for j in (2, 3):
+                ops.append(ninja_op(j=j, k=k, faults={n: {"code": c} for n, c in zip(fl, (1, 2, 3))}))
+    ops.append(ninja_op(j=2, k=1, faults={"i1": {"code": 200}}))
+    ops.append(ninja_op(j=2, k=0, faults={"i2": {"code": 255, "touch": True}, "i3": {"code": 131}}))
+    ops.append(ninja_op(j=2, k=1, faults={"i1": {"code": 127}, "i2": {"code": 137}}))
+    bi = next(i for i, o in enumerate(ops) if o["op"] == "ninja")
+    T.append(scenario("indep4/fresh", "template", [v], ops=ops, init=[], depth=1, tags=["parallel", "faults", "fresh"]))
+    T.append(scenario("indep4/built", "template", [v], ops=ops, init=[bi], depth=2, tags=["parallel", "faults", "built"]))
+
+    # T20 restat statement behind two phony aliases next to independent work
+    v = Variant("v0", [Stmt("r", ex=["s"], restat=True), Stmt("al1", ex=["r"], phony=True),
+                       Stmt("al2", ex=["al1"], phony=True), Stmt("x", ex=["t"]), Stmt("y", ex=["al2"]),
+                       Stmt("z", ex=["u"], oo=["al1"])], defaults=["y", "x", "z"])
+    T += _mk("restat_aliases", [v], tags=["restat", "phony"], depth=d, touch=True, js=(1, 2))
 
     return T
